@@ -90,13 +90,13 @@ let un_code s =
 let parse_mode (s : string) : mode =
   match String.split_on_char '.' s with
   | ["safe"] -> MSafe | ["unsafe"] -> MUnsafe
-  | ["reuse"; r] -> MReuse (nat_of_int (int_of_string r))
+  | ["reuse"; r] | ["ur"; r] -> MReuse (nat_of_int (int_of_string r))   (* ur = UseUnsafe + WithReuse: the destination wins *)
   | ["incr"; r] -> MIncr (nat_of_int (int_of_string r))
   | _ -> failwith ("mode " ^ s)
 let parse_cmode (s : string) : cmode =
   match String.split_on_char '.' s with
   | ["safe"] -> CSafe | ["unsafe"] -> CUnsafe
-  | ["reuse"; r] -> CReuse (nat_of_int (int_of_string r))
+  | ["reuse"; r] | ["ur"; r] -> CReuse (nat_of_int (int_of_string r))
   | ["incr"; r] -> CIncr (nat_of_int (int_of_string r))
   | _ -> failwith ("cmode " ^ s)
 
@@ -338,13 +338,15 @@ let expand (o : string) (impl_step : string) : zop list * int =
           | ["safe"] -> (None, None)
           | ["reuse"; r] -> (Some (nat_of_int (int_of_string r)), None)
           | ["incr"; r] -> (None, Some (nat_of_int (int_of_string r)))
+          | ["both"; r; i] -> (Some (nat_of_int (int_of_string r)), Some (nat_of_int (int_of_string i)))
           | _ -> failwith "dot nd: mode") in
       let la = List.length sa - 1 and lb = (if List.length sb >= 2 then List.length sb - 2 else 0) in
       override_model := Some (fun m -> zdot_nd_full m (nat 1) (nat 2) reuse incr);
       override_spec := Some (fun st ->
-          match incr with
-          | None -> zdot_nd_spec st (nat 1) (nat 2) reuse
-          | Some r -> zdot_nd_spec_incr st (nat 1) (nat 2) r);
+          match reuse, incr with
+          | _, None -> zdot_nd_spec st (nat 1) (nat 2) reuse
+          | None, Some i -> zdot_nd_spec_incr st (nat 1) (nat 2) i
+          | Some r, Some i -> zdot_nd_spec_both st (nat 1) (nat 2) r i);
       (match reuse, incr with
        | Some r, _ ->
          let psize = List.fold_left (fun acc d -> acc * int_of_z d) 1
@@ -630,7 +632,7 @@ let () =
              engines' known difference (F62) is about MIXED orders only *)
           let dests = List.concat (List.map (fun tok ->
               match String.split_on_char '.' tok with
-              | ("reuse" | "incr") :: r :: _ -> (try [int_of_string r] with _ -> [])
+              | ("reuse" | "incr" | "ur") :: r :: _ -> (try [int_of_string r] with _ -> [])
               | "both" :: r :: i :: _ -> (try [int_of_string r; int_of_string i] with _ -> [])
               | _ -> []) (Array.to_list (fields ops.(!k)))) in
           let tags = List.map (layout_tag !m) (operand_ids ops.(!k) @ dests) in
@@ -650,7 +652,7 @@ let () =
              (it is then reshaped by the option handling) *)
           let mode = List.fold_left (fun acc tok ->
               match String.split_on_char '.' tok with
-              | ("safe" | "unsafe" | "reuse" | "incr" | "both") as m0 :: _ -> m0
+              | ("safe" | "unsafe" | "reuse" | "incr" | "both" | "ur") as m0 :: _ -> m0
               | _ -> acc) "safe" (List.tl (Array.to_list (fields ops.(!k)))) in
           let shape_of i = (match get_t !m (nat_of_int i) with Some d -> d.d_ap.shp | None -> []) in
           let reshaped = (match operand_ids ops.(!k) with
